@@ -473,7 +473,7 @@ pub(crate) enum Error {
         node: AstNode,
     },
     // parsing phase
-    UnrecognizedToken(FileId, usize),
+    UnrecognizedToken(FileId, Span),
     UnexpectedToken(String, String, Location),
     ProblematicToken(String, Location),
     UnrecognizedEscapeSequence(FileId, Span),
